@@ -10,6 +10,7 @@ def mkVar (src dst : FuncValue) : Var :=
 /-- a register argument assigned to a register of the same group -/
 structure RegPair (src dst : FuncValue) : Prop where
   srcReg : src.isReg = true
+  srcNotStk : src.isStack = false
   srcDirect : src.isIndirect = false
   srcLt : src.regId < 32
   dstReg : dst.isReg = true
